@@ -3,7 +3,7 @@ import os, sys, json, time, subprocess, hashlib, glob, traceback, collections, m
 import z3
 
 VERIF = os.environ.get('VERIF_OUT') or os.path.dirname(os.path.dirname(os.path.abspath(__file__)))     # evidence / replays / known findings live next to the code
-REPO = '/repo'
+REPO = os.environ.get('VERIF_REPO') or os.environ.get('VP_RUN_REPO') or '/repo'     # the tree under verification (default: /repo's working tree)
 CACHE = '/verif/.cache'      # shared cargo build caches (dependency artefacts only; the crate and the MIR are rebuilt on every run)
 MIR_TARGET = os.path.join(CACHE, 'mir-target')
 ENV = dict(os.environ, CARGO_NET_OFFLINE='true')
@@ -18,7 +18,8 @@ def build_mir():
     """regenerate MIR from /repo's current working tree (dependency artefacts are cached, the crate itself is always rebuilt)"""
     t0 = time.time()
     os.makedirs(CACHE, exist_ok=True)
-    env = dict(ENV, CARGO_TARGET_DIR=MIR_TARGET)
+    tgt = MIR_TARGET if os.path.realpath(REPO) == '/repo' else MIR_TARGET + '-' + hashlib.sha256(os.path.realpath(REPO).encode()).hexdigest()[:10]
+    env = dict(ENV, CARGO_TARGET_DIR=tgt)
     outdir = os.path.join(CACHE, 'mir')
     os.makedirs(outdir, exist_ok=True)
     out_file = os.path.join(outdir, 'ats_%d.mir' % os.getpid())
@@ -36,7 +37,21 @@ def build_mir():
 def build_replay():
     t0 = time.time()
     here = os.path.dirname(os.path.dirname(os.path.abspath(__file__)))
-    rc, out, err = sh(['bash', os.path.join(here, 'replay', 'build.sh')], cwd=os.path.join(here, 'replay'))
+    from . import harness as H
+    if os.path.realpath(REPO) == '/repo':
+        rc, out, err = sh(['bash', os.path.join(here, 'replay', 'build.sh')], cwd=os.path.join(here, 'replay'))
+        H.REPLAY_BIN = '/verif/.cache/replay-target/debug/ats-replay'
+    else:
+        # another tree (scratch worktree, snapshot): a copy of the replay crate whose path dependency points at it, own target dir
+        tag = hashlib.sha256(os.path.realpath(REPO).encode()).hexdigest()[:10]
+        src = os.path.join(CACHE, 'replay-src-' + tag)
+        os.makedirs(os.path.join(src, 'src'), exist_ok=True)
+        for f in ('Cargo.lock', os.path.join('src', 'main.rs')):
+            open(os.path.join(src, f), 'w').write(open(os.path.join(here, 'replay', f)).read())
+        open(os.path.join(src, 'Cargo.toml'), 'w').write(open(os.path.join(here, 'replay', 'Cargo.toml')).read().replace('path = "/repo"', 'path = "%s"' % os.path.realpath(REPO)))
+        tgt = os.path.join(CACHE, 'replay-target-' + tag)
+        rc, out, err = sh(['cargo', 'build', '--offline'], cwd=src, env=dict(ENV, CARGO_TARGET_DIR=tgt))
+        H.REPLAY_BIN = os.path.join(tgt, 'debug', 'ats-replay')
     if rc != 0:
         raise RuntimeError('replay build failed:\n' + err[-3000:])
     return time.time() - t0
